@@ -88,6 +88,7 @@ fn build(layer: &SysLayer, abbr_path: &std::path::Path, per: usize) -> Session {
     let mut ed = Editor::new(engine(1, &conv_log), dict, LaxUserFreqEstimate::new(0), abbr, sym_sel);
     ed.set_syllable_editor(Box::new(SharedLayout(lay.clone())));
     ed.set_editor_options(opts(per));
+    crate::register_user(&conv_log, user_ptr);
     Session { ed, lay, conv_log, user: user_ptr, sys: vec![layer.clone()], layout_kind: 0, probes: vec![mk()], engine_kind: 1 }
 }
 
